@@ -189,6 +189,10 @@ class CleanExplore(InputProp):
         hsub = clean_names[::10] if tier == "quick" else clean_names[::3]
         fams.append(Product(clean_names, hsub, name="history-ab"))
         fams.append(Product(hsub, clean_names, name="history-ba"))
+        # volume: ONE cleaner repairs 260 paragraphs in a first article and 260 in a second one (a budget or counter that lives as
+        # long as the cleaner is met here); the article is not part of the trigger alphabet - it costs seconds per case
+        self.clean["many-li-h2-p"] = "<ul>" + "".join("<li><h2>H%d</h2><p>para %d</p></li>" % (i, i) for i in range(260)) + "</ul>\n"
+        fams.append(Product(["many-li-h2-p"], ["many-li-h2-p"], name="history-ab"))
         fams.append(Product(BOOK_LAYOUTS, Seqs(sorted(BOOK_ARTS), 3, minlen=1), name="book"))
         fams.append(Seqs(clean_names, 2, minlen=2, name="clean2"))
         fams.append(Product(clean_names, [c[0] for c in W.CTX], name="clean-ctx"))
